@@ -74,7 +74,7 @@ class Bar(object):
             raise MeterFormatError(
                 "The meter argument '%s' is not an "
                 "understood representation of a meter. "
-                "Expecting a tuple." % meter
+                "Expecting a tuple." % (meter,)
             )
 
     def place_notes(self, notes, duration):
